@@ -517,38 +517,92 @@ func c19Errors(p *load.Prog, r *oblig.Run, g *cg.Graph) {
 		o := r.Add("R19.f", "worker loop of Publisher.Publish", p.Pos(pub.Pos()), "the worker stops at the first failed file and Publish returns the error")
 		ok := false
 		overwrite := ""
-		for _, an := range pub.AnonFuncs {
-			for _, c := range su.Calls(an) {
-				if c.Common().IsInvoke() && c.Common().Method.Name() == "WriteFile" {
-					// find the If on its error; the non-nil side must not reach the loop header again
-					v := c.(ssa.Value)
-					for _, ref := range *v.Referrers() {
-						bo, isBo := ref.(*ssa.BinOp)
-						if !isBo {
-							continue
-						}
-						for _, r2 := range *bo.Referrers() {
-							iff, isIf := r2.(*ssa.If)
-							if !isIf {
-								continue
-							}
-							errSide := iff.Block().Succs[0]
-							if bo.Op == token.EQL {
-								errSide = iff.Block().Succs[1]
-							}
-							if !su.ReachableBlocks(errSide)[c.Block()] {
-								ok = true
-							}
-							// the shared result is only ever overwritten with a failure
-							for _, r3 := range *v.Referrers() {
-								if st, isSt := r3.(*ssa.Store); isSt && st.Val == v {
-									if !(len(errSide.Preds) == 1 && errSide.Dominates(st.Block())) {
-										overwrite = p.Pos(st.Pos())
-									}
-								}
-							}
+		// leavesLoop: in fn, the non-nil side of the test on v's error does not lead back to the call that produced v
+		errSides := func(v ssa.Value) []*ssa.BasicBlock {
+			var out []*ssa.BasicBlock
+			for _, ref := range *v.Referrers() {
+				bo, isBo := ref.(*ssa.BinOp)
+				if !isBo || (bo.Op != token.NEQ && bo.Op != token.EQL) {
+					continue
+				}
+				for _, r2 := range *bo.Referrers() {
+					iff, isIf := r2.(*ssa.If)
+					if !isIf {
+						continue
+					}
+					if bo.Op == token.EQL {
+						out = append(out, iff.Block().Succs[1])
+					} else {
+						out = append(out, iff.Block().Succs[0])
+					}
+				}
+			}
+			return out
+		}
+		storeGuard := func(v ssa.Value, sides []*ssa.BasicBlock) {
+			// the shared result is only ever overwritten with a failure
+			for _, r3 := range *v.Referrers() {
+				if st, isSt := r3.(*ssa.Store); isSt && st.Val == v {
+					guarded := false
+					for _, es := range sides {
+						if len(es.Preds) == 1 && es.Dominates(st.Block()) {
+							guarded = true
 						}
 					}
+					if !guarded {
+						overwrite = p.Pos(st.Pos())
+					}
+				}
+			}
+		}
+		for _, an := range pub.AnonFuncs {
+			for _, c := range su.Calls(an) {
+				v, isVal := c.(ssa.Value)
+				if !isVal {
+					continue
+				}
+				if c.Common().IsInvoke() && c.Common().Method.Name() == "WriteFile" {
+					// the loop is in the worker closure itself
+					sides := errSides(v)
+					for _, es := range sides {
+						if !su.ReachableBlocks(es)[c.Block()] {
+							ok = true
+						}
+					}
+					storeGuard(v, sides)
+					continue
+				}
+				// the loop is in a helper the worker calls: the helper must leave its loop with the error, and the
+				// worker must record the helper's error
+				h := c.Common().StaticCallee()
+				if h == nil || pkgPathOf(h) != load.PkgHTML || len(h.Blocks) == 0 {
+					continue
+				}
+				for _, hc := range su.Calls(h) {
+					hv, isVal := hc.(ssa.Value)
+					if !isVal || !hc.Common().IsInvoke() || hc.Common().Method.Name() != "WriteFile" {
+						continue
+					}
+					leaves := false
+					for _, es := range errSides(hv) {
+						if su.ReachableBlocks(es)[hc.Block()] {
+							continue
+						}
+						// ... and returns that error
+						for b := range su.ReachableBlocks(es) {
+							if ret, isRet := b.Instrs[len(b.Instrs)-1].(*ssa.Return); isRet && len(ret.Results) > 0 && ret.Results[len(ret.Results)-1] == hv {
+								leaves = true
+							}
+						}
+						if ret, isRet := es.Instrs[len(es.Instrs)-1].(*ssa.Return); isRet && len(ret.Results) > 0 && ret.Results[len(ret.Results)-1] == hv {
+							leaves = true
+						}
+					}
+					sides := errSides(v)
+					if leaves && len(sides) > 0 {
+						ok = true
+					}
+					storeGuard(v, sides)
 				}
 			}
 		}
